@@ -17,16 +17,27 @@ def core(pid, sec, text):
                 level_note=CORE_NOTE,
                 technique="TLA+ spec (Core/CoreSpec) checked by TLC; edge-covering replay of the bounded state graph into the real core and TLC trace validation of recorded traces")
 
+def persist(pid, sec, text):
+    c = core(pid, sec, text)
+    c["engine"] = "tlc-persist"
+    c["technique"] = "TLA+ spec (Persist) checked by TLC; crash-point enumeration on the real flush/load code with file-system step tracing, traces validated by TLC"
+    c["level_note"] = ("Trusted: TLC, the fs_step hooks (placed after each file operation of v3.rs), the harness' generation encoding. Process-crash "
+                       "model only (completed operations persist in order; torn *.tmp only); no power-loss reordering; v1/v2 directories only as fallbacks of an empty v3 directory.")
+    return c
+
 CHECKS = [
  core("C01", "6/C01", "TLC exhaustively checks on the implementation-shaped tree model that every read equals the flat map of accepted writes and that errors change nothing (bounded universe); every edge of that graph is replayed into the real core with a full read-back after each step and random long histories are validated by TLC against the same spec."),
  core("C03", "6/C03", "TLC checks delivered events = expected events (reference layer: one event per touched matching key, in order, unique filter) and fold(snapshot, events) = pget for every interleaving of subscribe/unsubscribe with writes in the bounded universe; the same is validated on traces of the real core."),
  core("C05", "6/C05", "TLC checks ls/pls = next segments of stored keys and last delivered ls-notification = current listing in every reachable state of the bounded universe; edge replay and random histories validated against the spec."),
  core("C06", "6/C06", "TLC checks one holder, first-come hand-over, exactly-once confirmation and session-end clean-up over all interleavings of lock/acquire/release/disconnect for 2-3 clients and 2 keys; traces of the real core validated."),
  core("C07", "6/C07", "TLC checks the session-end procedure (six ordered sub-steps) against the reference effect on the flat map, events of other subscribers and the frame condition; traces of the real core validated."),
+ core("C04", "6/C04", "TLC evaluates for every pattern over {a,b,'',?,#} up to depth 3 (quick) / 4 (thorough), on a store holding every key up to that depth, that store collect (pget), store delete (pdelete) and the subscriber walk (notification) agree with the documented relation and reject illegal patterns; the real core answers the same exhaustive table and TLC validates the recorded trace."),
  core("C08", "6/C08", "TLC checks that no request of an ordinary client changes a protected $SYS key or makes a $SYS subscriber see a foreign value, over the product of request kinds and key/pattern shapes; traces of the real core validated."),
 ]
 
-PENDING = ["C02","C04","C09","C10","C11","C12","C13","C15","C16","C17","C18","C19","C20"]
+CHECKS.append(persist("C10", "6/C10", "TLC explores every interleaving of mutation, the file-system steps of a flush, a crash between any two of them and the steps of the load chain (which itself moves the slot selector) and checks that a start recovers the last completed or the in-progress snapshot with registrations of the same snapshot; the real code is crashed after every file-system step (single, double, in-load) and every recorded step and recovered generation is validated against the spec."))
+
+PENDING = ["C02","C09","C11","C12","C13","C15","C16","C17","C18","C19","C20"]
 
 def main():
     import props
@@ -40,8 +51,10 @@ def main():
              hooks=dict(guard="cargo feature `verif` of crate worterbuch (off by default)",
                         enable="the harness crate /verif/harness depends on /repo/worterbuch with default-features=false, features=[\"verif\",\"redb\"]",
                         baseline_off_cmd=BASELINE,
-                        source_commits=["e19d4a5"], add_only=True),
-             engines=[dict(name="tlc-core", path="spec/Core.tla spec/CoreSpec.tla spec/Trace_Core.tla harness/src/core_drv.rs bin/check",
+                        source_commits=["e19d4a5", "8c537d5", "d18b355"], add_only=True),
+             engines=[dict(name="tlc-persist", path="spec/Persist.tla spec/Trace_Persist.tla harness/src/persist_drv.rs",
+                           serves_properties=["C10"], kind_free_text="TLA+ step machine of the flush / crash / load chain, TLC, crash-point enumeration with step tracing"),
+                      dict(name="tlc-core", path="spec/Core.tla spec/CoreSpec.tla spec/Trace_Core.tla harness/src/core_drv.rs bin/check",
                            serves_properties=[c["property_id"] for c in checks],
                            kind_free_text="explicit TLA+ specification, TLC exhaustive model checking, spec->impl edge replay and impl->spec trace validation")],
              checks=checks, not_applicable=na,
